@@ -29,7 +29,8 @@ def main():
             continue
         d = vlib.scratch("_setup", fam)
         for tla in sorted(glob.glob(os.path.join(d, "*.tla"))):
-            q = subprocess.run(["java", "-cp", vlib.TLA_JAR, "tla2sany.SANY", os.path.basename(tla)], cwd=d,
+            q = subprocess.run(["java", "-DTLA-Library=/opt/veriftools/tlapm/lib/tlapm/stdlib", "-cp", vlib.TLA_JAR,
+                                "tla2sany.SANY", os.path.basename(tla)], cwd=d,
                                stdout=subprocess.PIPE, stderr=subprocess.STDOUT, text=True)
             if q.returncode != 0 or "Semantic errors" in q.stdout or "Parse Error" in q.stdout or "Fatal errors" in q.stdout:
                 needed = fam in families
